@@ -18,7 +18,7 @@ TRUSTED_BASE = [
 ]
 ASSUMPTIONS = [
     "Python set/dict semantics as modelled (insertion-ordered association lists; == and hash classes of values)",
-    "not claimed (property text): the multi-member membership path; known finding C05-F1 covers the guard bypass",
+    "not claimed (property text): the multi-member membership path (several prov:entity values in one call); the guard bypass it used to open for every other PROV attribute (finding C05-F1) is repaired in /repo (1eddd9a)",
 ]
 
 
